@@ -444,6 +444,11 @@ Theorem ops_From_S_C (x0 : (@state F)) :
   run_val c (g_From_S_C c) [("state", MV (VS x0))] = apply_op c 30 [VS x0].
 Proof. ops_tac. Qed.
 
+(* impl PartialOrd for Quantity *)
+Theorem ops_PartialOrd_QQ (x0 : (@quantity F)) (x1 : (@quantity F)) :
+  run_val c (g_PartialOrd_QQ c) [("self", MV (VQ x0)); ("other", MV (VQ x1))] = apply_op c 13 [VQ x0; VQ x1].
+Proof. ops_tac. Qed.
+
 (* Command::new *)
 Theorem ops_C_new (x0 : pd) (x1 : F) :
   run_val c (g_C_new c) [("position_derivative", MV (VPD x0)); ("value", MV (VF x1))] = apply_op c 31 [VPD x0; VF x1].
@@ -727,6 +732,7 @@ Print Assumptions ops_From_I_T.
 Print Assumptions ops_From_I_D.
 Print Assumptions ops_From_C_P.
 Print Assumptions ops_From_S_C.
+Print Assumptions ops_PartialOrd_QQ.
 Print Assumptions ops_C_new.
 Print Assumptions ops_C_get_position.
 Print Assumptions ops_C_get_velocity.
